@@ -50,6 +50,17 @@ func HarnessC17Stall() {
 	case 2:
 		opts = append(opts, WithSMTPAuth(SMTPAuthLoginNoEnc), WithUsername("user"), WithPassword("secret"))
 	}
+	// route: the configured port answers, or it is closed and the fallback port
+	// (WithTLSPortPolicy / WithSSLPort(true)) reaches the server
+	route := svPick("dial-route", svParam("routes", 3))
+	switch route {
+	case 1:
+		opts = append(opts, WithTLSPortPolicy(TLSOpportunistic))
+		s.refuseDials = 1
+	case 2:
+		opts = append(opts, WithSSLPort(true))
+		s.refuseDials = 1
+	}
 	c := hxNewClient(s, opts...)
 	s.phase = "dial"
 	var err error
@@ -75,6 +86,9 @@ func HarnessC17Stall() {
 				err = c.Reset()
 			}
 		}
+	}
+	if route > 0 && len(s.dialed) > 1 {
+		svReach("fallback-port-dialed")
 	}
 	if s.stalled {
 		svReach("stalled")
